@@ -37,7 +37,7 @@ ASSUMPTIONS = [
 ]
 
 FLAGSETS = [(), ("--include-submodules",), ("--include-meson-subprojects",), ("--include-submodules", "--include-meson-subprojects")]
-case_strategy = st.tuples(GT.tree_spec(), st.sampled_from(FLAGSETS), st.booleans())
+case_strategy = st.tuples(GT.tree_spec(), st.sampled_from(FLAGSETS), st.booleans(), st.lists(st.integers(0, 1000), min_size=1, max_size=3))
 
 
 def expected(root: Path, spec, flags):
@@ -95,9 +95,11 @@ _LINTFILE = re.compile(r"^(.*): (no license identifier|no copyright notice|read 
 
 
 def check_tree(ctx, case):
-    spec, flags, mp = case
+    spec, flags, mp = case[:3]
+    picks = case[3] if len(case) > 3 else [0]
     root = ctx.fresh_dir()
     copy = None
+    copy2 = None
     try:
         GT.materialise(root, spec)
         verdicts = expected(root, spec, flags)
@@ -105,7 +107,7 @@ def check_tree(ctx, case):
         exc = {p for p, (v, _w) in verdicts.items() if v == RC.EXCLUDED}
         unspec = {p for p, (v, _w) in verdicts.items() if v == RC.UNSPEC}
         calshl = {p for p, (v, w) in verdicts.items() if w == "cal-shl-name"}
-        cdict = {"nodes": spec["nodes"], "git": spec["git"], "flags": list(flags), "mp": mp}
+        cdict = {"nodes": spec["nodes"], "git": spec["git"], "flags": list(flags), "mp": mp, "picks": list(picks)}
         labels = [f"git:{bool(spec['git'])}", f"flags:{' '.join(flags) or '-'}"]
         labels += sorted({f"rule:{w}" for (_v, w) in verdicts.values()})
         if spec["git"] and spec["git"]["submodules"]:
@@ -174,15 +176,45 @@ def check_tree(ctx, case):
                     else:
                         obs.add(p)
             judge(obs, "annotate -r .")
+        # 5. annotate -r on chosen sub-directories (including excluded ones: LICENSES/, .reuse/, ignored
+        #    directories, subprojects, submodules): only the covered files below them may change
+        alldirs = sorted({"/".join(p.split("/")[:i]) for p in verdicts for i in range(1, p.count("/") + 1)})
+        alldirs = [d for d in alldirs if not os.path.islink(root / d) and os.path.isdir(root / d)]
+        if alldirs and res.crash is None:
+            chosen = sorted({alldirs[i % len(alldirs)] for i in picks})
+            copy2 = ctx.fresh_dir("copy")
+            os.rmdir(copy2)
+            GT.copytree(root, copy2)
+            before = snapshot(copy2)
+            res = cli.run([*flags, "annotate", "--copyright", "Verif", "--license", "MIT", "--year", "2020", "--fallback-dot-license", "-r", *chosen], copy2)
+            if res.crash is None and res.code != 2:
+                after = snapshot(copy2)
+                obs = set()
+                for p in set(before) | set(after):
+                    if before.get(p) != after.get(p):
+                        if p.endswith(".license") and p[: -len(".license")] in after:
+                            obs.add(p[: -len(".license")])
+                        else:
+                            obs.add(p)
+                below = lambda p: any(p.startswith(d + "/") for d in chosen)  # noqa: E731
+                want = {p for p in cov if below(p)}
+                obs -= unspec
+                if obs != want:
+                    why = {p: verdicts.get(p, ("?", "not-in-tree")) for p in sorted(obs ^ want)}
+                    sig = "cal-shl-names-skipped" if (want - obs) and not (obs - want) and (want - obs) <= calshl else ""
+                    ctx.fail(cdict, f"annotate -r {chosen}: modified {sorted(obs)}, covered files below those directories {sorted(want)}; model says {why}", sig)
+                ctx.label("annotate-r-subdirs")
     finally:
         tree.rmtree(root)
         if copy is not None and copy.exists():
             tree.rmtree(copy)
+        if copy2 is not None and copy2.exists():
+            tree.rmtree(copy2)
 
 
 def replay(ctx, case):
     spec = {"nodes": {k: tuple(v) for k, v in case["nodes"].items()}, "git": case["git"]}
-    check_tree(ctx, (spec, tuple(case["flags"]), case.get("mp", False)))
+    check_tree(ctx, (spec, tuple(case["flags"]), case.get("mp", False), case.get("picks", [0, 1, 2])))
 
 
 def run(ctx):
